@@ -38,6 +38,10 @@ ASSUMPTIONS = [
     "spectral measure (nsi_eigenvector_centrality) on connected graphs "
     "only, compared with 1e-6",
     "float64 pipelines compared with rtol 1e-9",
+    "typical-weight corrected (quotient) measures are compared only where "
+    "both values are finite and below 1e6 in magnitude: at a vanishing "
+    "denominator the value is undefined and rounding decides between nan, "
+    "inf and huge numbers (found by the thorough tier, see DESIGN 7.4)",
 ]
 
 # ---- measure tables -------------------------------------------------------
@@ -177,6 +181,19 @@ def compare(rec, name, kind, a, b, parents, tol):
     """a = value on G, b = value on the split network; parents[u] = node of
     G that node u of the split network descends from."""
     parents = np.asarray(parents)
+    if name.endswith("_tw") and kind == "node":
+        # typical-weight corrected measures are quotients whose denominator
+        # (k(k-1), T - ksum/tw - bilk + 2) vanishes for particular weight
+        # configurations: there the value is 0/0 or x/0 and rounding decides
+        # between nan, inf and +-1e15.  Only well-conditioned entries are
+        # compared (finite on both sides and of moderate size).
+        a = _norm(a)[parents]
+        b = _norm(b)
+        with np.errstate(invalid="ignore"):
+            okm = np.isfinite(a) & np.isfinite(b) & (np.abs(a) < 1e6) & \
+                (np.abs(b) < 1e6)
+        rec.close(b[okm], a[okm], name, rtol=max(tol, 1e-7), atol=1e-9)
+        return
     if kind == "global":
         rec.close(b, a, name, rtol=tol, atol=tol * 1e-3)
     elif kind == "node":
